@@ -123,6 +123,27 @@ def _eval_overlap(f, params, C, state):
     raise _NotModelled("a path falls off the end of the function")
 
 
+def _nf(f):
+    """the function with access temporaries read through (core.astutil.deref_access_temps): rules see `aabbs[nodes[i, LEFT]]` whether or not the
+    code names the intermediate index / row / type"""
+    import copy
+    g = copy.copy(f)
+    g.node = deref_access_temps(f.node)
+    return g
+
+
+def _nf_open(idx, f):
+    """_nf, with the private single-exit helpers of the module opened first (a descent loop moved into `_find_sibling` is insert_leaf's loop again)"""
+    import copy
+    from ..core.inline import inline_single_exit_helpers
+    g = copy.copy(f)
+    opened = inline_single_exit_helpers(idx, f.module, f.node, only=lambda c: c.module is f.module and c.name.startswith("_") and
+                                        any(isinstance(n, (ast.While, ast.For)) for n in ast.walk(c.node)))
+    # line numbers of the opened body are those of the call statement: keep source order usable for the line-based checks
+    g.node = deref_access_temps(opened)
+    return g
+
+
 def r_closed(idx, rep):
     rule = "R-CLOSED"
     rep.rule(rule, "aabb_overlap is true exactly when, on all three axes, a.lo <= b.hi and b.lo <= a.hi (closed intervals: touching boxes "
@@ -175,7 +196,7 @@ def _find_while(f):
     return ws
 
 
-from ..core.astutil import guard_chain as _guard_chain, atomise as _atomise, resolved      # noqa: E402
+from ..core.astutil import guard_chain as _guard_chain, atomise as _atomise, resolved, deref_access_temps      # noqa: E402
 
 
 def _stack_pushes(loop, stackname):
@@ -196,7 +217,26 @@ def _stack_pushes(loop, stackname):
             pushed = list(st.value.right.elts)
         if pushed is not None:
             out.append((st, pushed))
-    return out
+    # consecutive pushes in one block (stack.append(left); stack.append(right)) are one push of several elements
+    merged = []
+    pm_ = parent_map(loop)
+    for st, pushed in out:
+        if merged:
+            pst, ppushed = merged[-1]
+            par = pm_.get(st)
+            same = par is pm_.get(pst)
+            if same:
+                for fld in ("body", "orelse"):
+                    blk = getattr(par, fld, None)
+                    if isinstance(blk, list) and st in blk and pst in blk and blk.index(st) == blk.index(pst) + 1 + (len(ppushed) - 1 if False else 0):
+                        merged[-1] = (pst, ppushed + pushed)
+                        break
+                else:
+                    merged.append((st, pushed))
+                continue
+        merged.append((st, pushed))
+    # adjacency test above only joins direct neighbours; join chains
+    return merged
 
 
 def _pop_var(loop, stackname):
@@ -241,7 +281,7 @@ def r_traverse(idx, rep):
                    "exactly once, applies no other filter; query_overlap_of_other_tree does the same over tree 2 and "
                    "queries tree 1 completely for its leaves", floor=8)
     C = _consts(idx)
-    f = idx.func(MOD + "::query_overlap")
+    f = _nf(idx.func(MOD + "::query_overlap"))
     fk = MOD + "::query_overlap"
     params = f.params()
     if len(params) < 4:
@@ -387,7 +427,7 @@ def r_traverse(idx, rep):
                   "break_at_first_leaf no longer defaults to False: complete queries would stop at the first leaf")
 
     # ---- tree against tree
-    g = idx.func(MOD + "::query_overlap_of_other_tree")
+    g = _nf(idx.func(MOD + "::query_overlap_of_other_tree"))
     gk = MOD + "::query_overlap_of_other_tree"
     gp = g.params()
     if len(gp) != 6:
@@ -460,7 +500,7 @@ def r_traverse(idx, rep):
                         rep.bad(rule, gk + "|push guard %s" % u(cj), "%s:%d" % (g.module.relpath, st.lineno), "children pushed for a non-branch / wrong tree")
                     continue
                 # pruning: len(query_overlap(...)) >= 1 / > 0 / != 0, or truthiness of len
-                pr = _prune_test(cj, C)
+                pr = _prune_test(cj, C, g.node)
                 if pr is not None and pol:
                     c, ok_bound = pr
                     nprune += 1
@@ -528,8 +568,16 @@ def _inside_len(pm, c):
     return isinstance(p, ast.Call) and call_name(p) == "len"
 
 
-def _prune_test(cj, C):
+def _prune_test(cj, C, fnode=None):
     """len(query_overlap(..)) >= 1  -> (call, bound_ok)."""
+    if fnode is not None:
+        import copy
+
+        class R(ast.NodeTransformer):
+            def visit_Name(self, n):
+                r = resolved(fnode, n) if isinstance(n.ctx, ast.Load) else n
+                return copy.deepcopy(r) if (r is not n and isinstance(r, ast.Call) and (call_name(r) or "").split(".")[-1] == "query_overlap") else n
+        cj = R().visit(copy.deepcopy(cj))
     if isinstance(cj, ast.Compare) and len(cj.ops) == 1:
         op, a, b = compare_triples(cj)[0]
         for x, y, flip in ((a, b, False), (b, a, True)):
@@ -553,7 +601,7 @@ def r_links(idx, rep):
                    "paired with nodes[X,PARENT]=P and vice versa; new parent inherits the old parent; the old parent's "
                    "matching slot is redirected; root changes iff the old parent is the sentinel; types are set", floor=10)
     C = _consts(idx)
-    f = idx.func(MOD + "::insert_leaf")
+    f = _nf_open(idx, idx.func(MOD + "::insert_leaf"))
     fk = MOD + "::insert_leaf"
     params = f.params()
     if len(params) < 5:
@@ -744,11 +792,14 @@ def r_links(idx, rep):
         if canon(u(st.targets[0].slice)) == NP and isinstance(st.value, ast.Call) and (call_name(st.value) or "").endswith("_merge_aabb"):
             args = sorted(canon(u(a.slice)) for a in st.value.args if isinstance(a, ast.Subscript) and u(a.value) == p_aabbs)
             good = args == sorted([p_leaf, sib or "?"])
-    rep.check(good, rule2, fk + "|new-parent-box", f.where, "aabbs[new parent] is not the merge of the leaf's and the sibling's boxes")
+    good_box = good
     # upward fix call
     fx = calls(f.node, "fix_upward_tree")
     okc = False
+    starts_at_np = False
     for c in fx:
+        if c.args and canon(u(c.args[0])) == NP:
+            starts_at_np = True
         a0 = u(c.args[0]) if c.args else ""
         # value of a0 at call time: name assigned from nodes[leaf, PARENT] or new parent itself
         src = None
@@ -756,7 +807,7 @@ def r_links(idx, rep):
             if isinstance(st, ast.Assign) and u(st.targets[0]) == a0 and st.lineno < c.lineno:
                 src = st.value
         cand = canon(a0)
-        if src is not None:
+        if src is not None and cand != NP:
             acc = _col_access(src, C)
             if acc and acc[2] == C["PARENT_INDEX"] and acc[1] in (p_leaf, sib):
                 cand = NP
@@ -765,7 +816,11 @@ def r_links(idx, rep):
         if cand in (NP,) or (len(oldp) == 1 and cand == oldp[0]):
             okc = True
     rep.check(okc, rule2, fk + "|upward-fix-called", f.where, "insert_leaf does not refit the ancestors starting at the new parent")
-    g = idx.func(MOD + "::fix_upward_tree")
+    # the new parent's box: stored explicitly as merge(leaf, sibling), or produced by the upward refit when that starts AT the new parent (its two
+    # children are the leaf and the sibling by R-LINKS, and every visited node is re-merged from its children)
+    rep.check(good_box or starts_at_np, rule2, fk + "|new-parent-box", f.where,
+              "aabbs[new parent] is neither stored as the merge of the leaf's and the sibling's boxes nor recomputed by an upward refit that starts at the new parent")
+    g = _nf(idx.func(MOD + "::fix_upward_tree"))
     gk = MOD + "::fix_upward_tree"
     gp = g.params()
     ws = [s for s in iter_stmts(g.node.body) if isinstance(s, ast.While)]
@@ -950,6 +1005,11 @@ def r_bookkeep(idx, rep):
     if f is None:
         raise AnalysisError("AabbTree.insert_aabbs vanished")
     fk = MOD + "::AabbTree.insert_aabbs"
+    import copy as _copy
+    from ..core.inline import inline_single_exit_helpers
+    f0, f = f, _copy.copy(f)
+    # small private helpers of the module (padding, index ranges) are read as the statements they contain
+    f.node = inline_single_exit_helpers(idx, f0.module, f0.node, only=lambda c: c.module is f0.module and c.name.startswith("_") and not c.njit)
     body = list(iter_stmts(f.node.body))
     params = f.params()
     p_batch = params[1]
